@@ -380,11 +380,19 @@ def compare_structure(real, model, palette, pts):
             import math
             from harness import render
             inv = render.inv(rf["gt"])
+            # conditioning of the 3-point -> 2-point conversion: when p0p1 and p0p2 are nearly parallel the projected end point, written
+            # with 3 decimals, moves the parameter by (rounding / length) / sin(angle); such graphs are compared loosely or not at all
+            v1, v2 = (g[2] - g[0], g[3] - g[1]), (g[4] - g[0], g[5] - g[1])
+            cr = abs(v1[0] * v2[1] - v1[1] * v2[0])
+            cond = (math.hypot(*v1) * math.hypot(*v2)) / cr if cr > 0 else float("inf")
+            if cond > 8:
+                continue
+            rlen = max(math.hypot(rf["x2"] - rf["x1"], rf["y2"] - rf["y1"]), 1e-6)
             for z in pts:
                 tm = render.linear_param((g[0], g[1]), (g[2], g[3]), z, (g[4], g[5]))
                 zz = render.app(inv, z) if inv else z
                 tr_ = render.linear_param((rf["x1"], rf["y1"]), (rf["x2"], rf["y2"]), zz)
-                if tm is None or tr_ is None or abs(tm - tr_) > 5e-3 * (1 + abs(tm)):
+                if tm is None or tr_ is None or abs(tm - tr_) > (5e-3 + 3e-3 / rlen) * (1 + abs(tm)) * max(1.0, cond):
                     return f"linear gradient parameter at {z}: real {tr_} vs model {tm}"
     return None
 
